@@ -14,10 +14,10 @@ def run(pid, tier, seed):
         spec, cfgtxt, fam = "FlytBind", "SPECIFICATION BSpec\nINVARIANT TableConsistent\nCHECK_DEADLOCK FALSE\n", "bind"
         count = 150 if tier == "quick" else 5000
     else:
-        ms = 3 if tier == "quick" else 4
+        ms = 3   # (four steps with all forms and styles: > 25 min of TLC; the thorough tier spends its time on random sequences of up to 6 steps instead)
         spec, fam = "FlytConfig", "config"
         cfgtxt = "SPECIFICATION CfgSpec\nCONSTANT MaxSteps = %d\nINVARIANTS LastWins Untouched FormsEquivalent ExportSeq\nCHECK_DEADLOCK FALSE\n" % ms
-        count = 400 if tier == "quick" else 10000
+        count = 400 if tier == "quick" else 20000
     lines, wall = run_tlc(d, spec, cfgtxt, workers=8, heap="6g", tag="mc_" + fam, timeout=1500)
     st = tlc_stats(lines)
     ex = export_lines(lines)
